@@ -103,6 +103,33 @@ def prepare(root, seed):
             _atomic(p, refenc.Encoder().envelope(d))
             files.append(p)
         ops.append({"op": "boot", "id": f"boot-{j}", "files": files, "soc": soc, "base": [0x1000, 0x0E1ED000][j % 2]})
+    # boot storage with build-configuration files that enable DIFFERENT sets of manifests (state must not leak from one
+    # image boot to the next one in the same interpreter)
+    def class_env(vendor, cls, seq):
+        d = {"SUIT_Envelope_Tagged": {
+            "suit-authentication-wrapper": {"SuitDigest": {"suit-digest-algorithm-id": "cose-alg-sha-256"}},
+            "suit-manifest": {"suit-manifest-version": 1, "suit-manifest-sequence-number": seq,
+                              "suit-common": {"suit-components": [["M", seq]]},
+                              "suit-manifest-component-id": ["INSTLD_MFST", {"RFC4122_UUID": {"namespace": vendor,
+                                                                                               "name": cls}}]}}}
+        return refenc.Encoder().envelope(d)
+    _atomic(f"{root}/kc_a.config", ('SB_CONFIG_SUIT_MPI_APP_LOCAL_2_VENDOR_NAME="acme.example"\n'
+                                    'SB_CONFIG_SUIT_MPI_APP_LOCAL_2_CLASS_NAME="acme_x"\n'
+                                    'SB_CONFIG_SUIT_MPI_APP_LOCAL_3_VENDOR_NAME="nordicsemi.com"\n'
+                                    'SB_CONFIG_SUIT_MPI_APP_LOCAL_3_CLASS_NAME="nRF54H20_sample_app"\n').encode())
+    _atomic(f"{root}/kc_b.config", ('SB_CONFIG_SUIT_MPI_RAD_LOCAL_2_VENDOR_NAME="radio.example"\n'
+                                    'SB_CONFIG_SUIT_MPI_RAD_LOCAL_2_CLASS_NAME="radio_y"\n').encode())
+    _atomic(f"{root}/kc_c.config", ('SB_CONFIG_SUIT_MPI_ROOT_VENDOR_NAME="acme.example"\n'
+                                    'SB_CONFIG_SUIT_MPI_ROOT_CLASS_NAME="acme_x"\n').encode())
+    _atomic(f"{root}/env_x.suit", class_env("acme.example", "acme_x", 11))
+    _atomic(f"{root}/env_y.suit", class_env("radio.example", "radio_y", 12))
+    _atomic(f"{root}/env_app.suit", class_env("nordicsemi.com", "nRF54H20_sample_app", 13))
+    for oid, files, kc in (("boot-kconfig-a-x", ["env_x"], "kc_a"), ("boot-kconfig-a-app", ["env_app"], "kc_a"),
+                           ("boot-kconfig-b-y", ["env_y"], "kc_b"), ("boot-kconfig-b-x-unknown", ["env_x"], "kc_b"),
+                           ("boot-kconfig-b-app", ["env_app"], "kc_b"), ("boot-kconfig-c-x", ["env_x"], "kc_c"),
+                           ("boot-noconfig-app", ["env_app"], None), ("boot-noconfig-x-unknown", ["env_x"], None)):
+        ops.append({"op": "boot", "id": oid, "files": [f"{root}/{f}.suit" for f in files], "soc": "nrf54h20",
+                    "base": 0x2000, "config": f"{root}/{kc}.config" if kc else None})
     # --- MPI ----------------------------------------------------------------------------------------------
     for k in range(4):
         ops.append({"op": "mpi-generate", "id": f"mpi-generate-{k}", "vendor": ["nordicsemi.com", "acme.org", "中", ""][k],
@@ -221,7 +248,7 @@ def run_op(spec, outdir):
             outs["description"] = _sha(open(dst, "rb").read())
         elif op == "boot":
             from suit_generator.cmd_image import ImageCreator
-            ImageCreator.create_files_for_boot(spec["files"], outdir, spec["base"], None, spec["soc"])
+            ImageCreator.create_files_for_boot(spec["files"], outdir, spec["base"], spec.get("config"), spec["soc"])
             for f in sorted(os.listdir(outdir)):
                 outs[f] = _sha(open(os.path.join(outdir, f), "rb").read())
         elif op == "mpi-generate":
